@@ -19,7 +19,7 @@ SIM_UNIT = "group operations"
 BUDGET = {"quick": {"runs": 1600, "wall": 85}, "thorough": {"runs": 12000, "wall": 2400}}
 SHRINK_LISTS = ("ops",)
 PROBES = {"C03": ["history>=1000", "history>=10000", "act4:w=0", "float32", "batched", "scale-steered",
-                  "assoc", "act-compose", "identity", "inverse", "reinit-from-identity", "logscale>8", "identity_-through-view:[::2]", "identity_-through-view:[:, 0]", "operand:expanded", "operand:broadcast", "operand:non-contiguous"]}
+                  "assoc", "act-compose", "identity", "inverse", "reinit-from-identity", "logscale>8", "identity_-through-view:[::2]", "identity_-through-view:[:, 0]", "operand:expanded", "operand:broadcast", "operand:non-contiguous", "operand:deepcopied"]}
 TS = float(os.environ.get("PPSIM_TOLSCALE", "1"))
 UPDATES = ("mulr", "mull", "inv", "add_", "plus", "retr", "idl", "idr", "reinit", "ident_view")
 PROBE_OPS = ("act3", "act4", "assoc", "actcomp", "access", "invlaw")
@@ -208,6 +208,12 @@ def execute(plan, prop, out, tr):
                     # lshape () operand against a batched element (broadcasting of the batch dimensions)
                     Y = lie(a.reshape(-1, md)[0].to(dtype), fam, False).Exp()
                     out.probe("operand:broadcast")
+                elif lay == 4:
+                    import copy as _copy
+                    Y = _copy.deepcopy(Y)       # an element restored from a snapshot (deepcopy / pickle / torch.load)
+                    if i % 2:
+                        X = _copy.deepcopy(X)
+                    out.probe("operand:deepcopied")
                 elif lay == 3:
                     # operand living in every second slot of a larger buffer (non-contiguous storage)
                     big = torch.zeros(bs + (2 * gd,), dtype=dtype)
